@@ -202,6 +202,42 @@ def escaper_fold_rule(F, rep, escapers):
             rep.ok(rid, key, "%d texts (all 128 ASCII characters, non-ASCII samples, mixed texts) decode to themselves" % len(texts))
 
 
+def number_carrier_rule(F, rep):
+    """R18.10 ('numbers are rendered as JSON numbers with their decimal value'): the text jsonify() produces for an evaluation result carries numbers with up to 34 significant
+    digits; it must reach the response as text.  Decoding it into serde_json::Value (whose numbers are u64 / i64 / f64 without the arbitrary_precision feature) or into any
+    binary float on the way rounds `1/3` to 0.33333333333333337.  Positive evidence: a serde_json deserialisation whose input is (a local initialised from) a jsonify() call."""
+    rid = rep.rule("R18.10", "the JSON text of an evaluation result reaches the response as text: it is never decoded into serde_json::Value / binary floats on the way")
+    n_json = 0
+    for n, h in sorted(F.hir.items()):
+        if not h["_crate"].startswith("dmntk_server") or "body" not in h:
+            continue
+        jcalls = find_hir(h["body"], lambda x: x.get("k") == "MethodCall" and (x.get("callee_decl") or x.get("callee") or "").endswith("Jsonify::jsonify") or
+                          (x.get("k") == "MethodCall" and x.get("method") == "jsonify"))
+        if not jcalls:
+            continue
+        n_json += len(jcalls)
+        from_json = {}
+        for st, _ in find_hir(h["body"], lambda x: x.get("k") == "LetStmt" and "e" in x and x["p"].get("k") == "Bind"):
+            if find_hir(st["e"], lambda y: y.get("k") == "MethodCall" and y.get("method") == "jsonify"):
+                from_json[st["p"]["name"]] = True
+
+        def carries_json(e):
+            return bool(find_hir(e, lambda y: (y.get("k") == "MethodCall" and y.get("method") == "jsonify") or
+                                 (y.get("k") == "Path" and y.get("res") == "local" and y.get("name") in from_json)))
+        bad = []
+        for c, _ in find_hir(h["body"], lambda x: x.get("k") == "Call" and re.search(r"^serde_json::(de::)?from_(str|slice|reader)$", x.get("callee") or "")):
+            if c.get("args") and carries_json(c["args"][0]):
+                bad.append(c)
+        key = "carrier:%s" % n.split("::")[-1]
+        if bad:
+            rep.violation(rid, key, "%s decodes the jsonify() text of the result with %s and serialises it again: serde_json's numbers are 64-bit integers / binary floats, a decimal "
+                          "with more than 17 significant digits comes back rounded" % (n.split("::")[-1], bad[0]["callee"].split("::")[-1]), "%s:%s" % (h["file"], bad[0].get("l")))
+        else:
+            rep.ok(rid, key, "%d jsonify() call(s), none fed to a serde_json deserialiser" % len(jcalls))
+    if not n_json:
+        rep.undecided(rid, "carrier", "no jsonify() call in the server crate")
+
+
 def run(F, rep, tier):
     rep.explanation = ("(1) taint rule over every Jsonify impl and over the hand-built evaluate response: text interpolated into JSON output must be a constant, "
                        "a jsonify() result, a scalar rendering or pass through a JSON string escaper; (2) each route's handler must reach exactly the workspace "
@@ -214,6 +250,7 @@ def run(F, rep, tier):
     escapers = find_escapers(F)
     rep.analysed["json_escapers_recognised"] = sorted(escapers)
     escaper_fold_rule(F, rep, escapers)
+    number_carrier_rule(F, rep)
 
     # ---------------- R18.1
     all_impls = {n: h for n, h in F.hir.items() if n.endswith("as dmntk_common::jsonify::Jsonify>::jsonify")}
